@@ -149,8 +149,8 @@ TAILSTUBS = ["janet_fiber_setcapacity:fib_realloc_stub", "janet_tuple_n:fib_tupl
 TAILCHK = ["bounds-check", "pointer-check", "signed-overflow-check"]
 TAILCLAUSE = ("janet_fiber_funcframe_tail: arity mismatch refused and nothing changes; on success fiber->frame is kept, argument k arrives unchanged in parameter slot k, "
               "missing parameters and all other new frame slots are nil, header names the callee and keeps the caller link; no access outside the live stack block")
-U(id="fib.funcframe_tail", **{"class": "bounded"}, tier="thorough", bound="stack of at most 10 slots (at most 2 arguments), callee slot count at most 5 (loops unwound with unwinding assertions); realloc modelled faithfully (old block freed); "
-  "domain excludes calls that take the second reallocation in the variadic branch (known defect, see fib.funcframe_tail.regrow)",
+U(id="fib.funcframe_tail", **{"class": "bounded"}, tier="thorough", mem_gb=40, bound="stack of at most 10 slots (at most 2 arguments), callee slot count at most 5 (loops unwound with unwinding assertions); realloc modelled faithfully (old block freed); "
+  "this unit leaves out calls that take the second reallocation in the variadic branch (they are covered by fib.funcframe_tail.regrow)",
   clause=TAILCLAUSE, src=["fiber.c"], link=["wrap.c"], link_keep={"wrap.c": ["janet_nanbox_from_bits"]}, harness=["fib_frame_tail.c"], entry="h_funcframe_tail_b", mode="plain", defines=["-DFIB_NO_REGROW", "-DFIB_CAP=10"],
   replace_calls=TAILSTUBS, functions=["janet_fiber_funcframe_tail"], checks=TAILCHK, unwind=12, unwinding_assertions=True, timeout=1500, cbmc=CADICAL, object_bits=8,
   assumes=["janet_fiber_setcapacity behaves as realloc: new block with the old contents, old block freed", "janet_tuple_n / make_struct_n only read their argument range (asserted); janet_env_detach does not write the fiber",
@@ -160,13 +160,8 @@ U(id="fib.funcframe_tail", **{"class": "bounded"}, tier="thorough", bound="stack
     {"name": "args-not-moved", "file": "fiber.c", "find": "    if (stacksize) memmove(stack, args, stacksize * sizeof(Janet));", "replace": "    if (stacksize > 1) memmove(stack, args, stacksize * sizeof(Janet));", "expect": "arrives unchanged"},
     {"name": "arity-unchecked", "file": "fiber.c", "find": "    if (next_arity > func->def->max_arity) return 1;\n\n    if (fiber->capacity < nextstacktop) {\n        janet_fiber_setcapacity(fiber, 2 * nextstacktop);\n#ifdef JANET_DEBUG\n    } else {\n        janet_fiber_refresh_memory(fiber);\n#endif\n    }\n\n    Janet *stack", "replace": "    if (fiber->capacity < nextstacktop) {\n        janet_fiber_setcapacity(fiber, 2 * nextstacktop);\n    }\n\n    Janet *stack", "expect": "refused exactly"},
   ])
-U(id="fib.funcframe_tail.regrow", **{"class": "bounded"}, tier="thorough", bound="stack of at most 10 slots, callee slot count at most 5 (the smallest bound in which the second reallocation is reachable)",
-  disabled_reason="FAILS on the real code (genuine defect, reproduced with /repo/_build/janet): janet_fiber_funcframe_tail computes `stack` and `args` from fiber->data BEFORE the variadic branch "
-                  "may call janet_fiber_setcapacity(fiber, 2 * (tuplehead + 1)); after that realloc both pointers dangle, memmove copies inside the freed block and the callee's parameter slots keep "
-                  "whatever the caller had there. Failing obligations: memmove source/destination readable/writeable (deallocated object), 'argument k arrives unchanged', 'missing parameters and locals are nil'. "
-                  "Reproducer: (defn B [&opt b1 b2 b3 b4 b5 b6 b7 b8 b9 b10 & rest] [b1 b2 b3 b10 rest]) (def A (eval ~(fn A [] ,;(seq [i :range [0 50]] ~(var ,(symbol \"l\" i) ,(+ 1000 i))) (set l0 (+ l1 l2)) (B)))) "
-                  "(pp (resume (fiber/new A))) prints (nil 2003 1001 nil nil) instead of (nil nil nil nil ()).",
-  clause=TAILCLAUSE + " - including calls that regrow the stack for the rest slot", src=["fiber.c"], link=["wrap.c"], link_keep={"wrap.c": ["janet_nanbox_from_bits"]}, harness=["fib_frame_tail.c"], entry="h_funcframe_tail_b", mode="plain", defines=["-DFIB_CAP=10"],
+U(id="fib.funcframe_tail.regrow", **{"class": "bounded"}, tier="thorough", mem_gb=40, bound="stack of at most 10 slots, callee slot count at most 5 (the smallest bound in which the second reallocation is reachable)",
+    clause=TAILCLAUSE + " - including calls that regrow the stack for the rest slot", src=["fiber.c"], link=["wrap.c"], link_keep={"wrap.c": ["janet_nanbox_from_bits"]}, harness=["fib_frame_tail.c"], entry="h_funcframe_tail_b", mode="plain", defines=["-DFIB_CAP=10"],
   replace_calls=TAILSTUBS, functions=["janet_fiber_funcframe_tail"], checks=TAILCHK, unwind=12, unwinding_assertions=True, timeout=1500, cbmc=CADICAL, object_bits=8,
   assumes=["janet_fiber_setcapacity behaves as realloc: new block with the old contents, old block freed"],
   mutants=[
